@@ -162,8 +162,11 @@ def run_harness(bin_name, seed, scale, extra_env=None, crate=HARNESS, timeout=18
     return p.returncode, cases, notes, p.stderr.decode("utf-8", "replace")[-2000:]
 
 
-def bin_spec(spec, bin_name):
-    """typing information (imports, case type, checkers) for the cases of one harness binary"""
+def bin_spec(spec, bin_name, fam=None):
+    """typing information (imports, case type, checkers) for the cases of one harness binary / family"""
+    ft = spec.get("family_types", {})
+    if fam is not None and fam in ft:
+        return ft[fam]
     for b in spec["harness"]:
         if b["bin"] == bin_name and "case_type" in b:
             return b
@@ -177,12 +180,13 @@ def eval_cases(pid, spec, cases, tag):
     shutil.rmtree(wd, ignore_errors=True)
     os.makedirs(wd)
     groups = {}
+    ft = spec.get("family_types", {})
     for i, c in enumerate(cases):
-        groups.setdefault(c[2] if len(c) > 2 else None, []).append(i)
+        groups.setdefault((c[2] if len(c) > 2 else None, c[0] if c[0] in ft else None), []).append(i)
     files = []
     k = 0
-    for bname, members in groups.items():
-        bs = bin_spec(spec, bname) if bname else spec
+    for (bname, gfam), members in groups.items():
+        bs = bin_spec(spec, bname, gfam) if (bname or gfam) else spec
         shard = bs.get("shard", spec.get("shard", 250))
         hdr = ("From Passage Require Import %s.\nLocal Open Scope Z_scope.\nSet Printing Depth 1000000.\nSet Printing Width 160.\n"
                % " ".join(bs["imports"]))
@@ -236,7 +240,8 @@ def run_batch(pid, spec, seed, scale, tag):
         if rc != 0:
             problems.append("harness %s exited %d: %s" % (b["bin"], rc, err[-400:]))
         fams = b.get("families")
-        known_fams = bin_spec(spec, b["bin"])["checkers"]
+        known_fams = dict(bin_spec(spec, b["bin"])["checkers"])
+        for f_, d_ in spec.get("family_types", {}).items(): known_fams.update(d_["checkers"])
         unknown = sorted({f for f, _ in cases if f not in known_fams})
         if unknown:
             problems.append("harness %s printed case families without a checker: %s" % (b["bin"], unknown))
